@@ -22,11 +22,11 @@ import (
 // fwOff: IPv6 forwarding is switched off on the interface right before the stop (the usual order
 // of decommissioning a router: stop forwarding, then stop the daemon): the hosts were last told a
 // non-zero lifetime, so the final RA is owed to them whatever the interface's state is now.
-func runShutdown(t *testing.T, out *vfh.Out, terminate bool, evs []advEvent, tc time.Duration, lat []time.Duration, failIdx int, atStop int, fwOff bool) {
+func vfRunShutdown(t *testing.T, out *vfh.Out, terminate bool, evs []vfAdvEvent, tc time.Duration, lat []time.Duration, failIdx int, atStop int, fwOff bool) {
 	out.Pending(fmt.Sprintf("runShutdown terminate=%v stop=%v events=%+v latencies=%v failIdx=%d atStop=%d fwOff=%v", terminate, tc, evs, lat, failIdx, atStop, fwOff))
 	synctest.Test(t, func(t *testing.T) {
 		min, max := 200*time.Second, 600*time.Second
-		v := newVfAdv(vfAdvConfig(min, max, false, 1800*time.Second), terminate, nil)
+		v := vfNewVfAdv(vfAdvConfig(min, max, false, 1800*time.Second), terminate, nil)
 		v.conn.latency = func(n int, _ netip.Addr) time.Duration {
 			if n < len(lat) {
 				return lat[n]
@@ -82,7 +82,7 @@ func runShutdown(t *testing.T, out *vfh.Out, terminate bool, evs []advEvent, tc 
 			if d := e.t - time.Since(start); d > 0 {
 				time.Sleep(d)
 			}
-			if !v.conn.deliver(vfRead{m: advMessage(e), hop: e.hop, host: vfHosts[e.host].WithZone("vf0")}) {
+			if !v.conn.deliver(vfRead{m: vfAdvMessage(e), hop: e.hop, host: vfHosts[e.host].WithZone("vf0")}) {
 				break
 			}
 			synctest.Wait()
@@ -95,7 +95,7 @@ func runShutdown(t *testing.T, out *vfh.Out, terminate bool, evs []advEvent, tc 
 			// follows without letting the scheduler settle, so it may find the context cancelled
 			// in the middle of a loop iteration
 			for k := 0; k < atStop; k++ {
-				v.conn.deliver(vfRead{m: advMessage(advEvent{kind: 0, host: 1 + k%4}), hop: 255, host: vfHosts[1+k%4].WithZone("vf0")})
+				v.conn.deliver(vfRead{m: vfAdvMessage(vfAdvEvent{kind: 0, host: 1 + k%4}), hop: 255, host: vfHosts[1+k%4].WithZone("vf0")})
 			}
 		}
 		if fwOff {
@@ -132,7 +132,7 @@ func runShutdown(t *testing.T, out *vfh.Out, terminate bool, evs []advEvent, tc 
 					same = reflect.DeepEqual(w.ra.Options, ws[0].ra.Options) &&
 						w.ra.CurrentHopLimit == ws[0].ra.CurrentHopLimit && w.ra.ManagedConfiguration == ws[0].ra.ManagedConfiguration
 				}
-				impl.N(e.idx).B(w.dst == vfAllNodes).N(hostID(w.dst)).I(lt).B(same)
+				impl.N(e.idx).B(w.dst == vfAllNodes).N(vfHostID(w.dst)).I(lt).B(same)
 			case 'E':
 				impl.N(e.idx).B(ws[e.idx].failed)
 			}
@@ -149,11 +149,11 @@ func runShutdown(t *testing.T, out *vfh.Out, terminate bool, evs []advEvent, tc 
 // channel would never let a virtual clock advance.
 //
 //	cw terminate | status nFinal nAfter
-func runClosedWatch(t *testing.T, out *vfh.Out, terminate bool) {
+func vfRunClosedWatch(t *testing.T, out *vfh.Out, terminate bool) {
 	out.Pending(fmt.Sprintf("runClosedWatch terminate=%v", terminate))
 	watchC := make(chan netstate.Change)
 	close(watchC)
-	v := newVfAdv(vfAdvConfig(200*time.Second, 600*time.Second, false, 1800*time.Second), terminate, watchC)
+	v := vfNewVfAdv(vfAdvConfig(200*time.Second, 600*time.Second, false, 1800*time.Second), terminate, watchC)
 	ctx, cancel := context.WithCancel(context.Background())
 	done := make(chan error, 1)
 	go func() { done <- v.a.Run(ctx) }()
@@ -186,22 +186,22 @@ func runClosedWatch(t *testing.T, out *vfh.Out, terminate bool) {
 
 func verifC08(t *testing.T, r *vfh.Rand, out *vfh.Out) {
 	for _, term := range []bool{true, false} {
-		runClosedWatch(t, out, term)
+		vfRunClosedWatch(t, out, term)
 	}
 	n := vfh.N(400, 8000)
 	for i := 0; i < n; i++ {
 		tc := time.Duration(r.Range(int64(4*time.Second), int64(12*time.Second))) | 1
-		var evs []advEvent
+		var evs []vfAdvEvent
 		// solicitations shortly before the stop instant: their answers are pending in their random
 		// delay or in flight when the interface is stopped
 		for k := r.Intn(5); k > 0; k-- {
 			back := time.Duration(r.Range(2, int64(1500*time.Millisecond)))
-			evs = append(evs, advEvent{t: (tc - back) &^ 1 | 1, kind: 0, host: 1 + r.Intn(4), hop: 255})
+			evs = append(evs, vfAdvEvent{t: (tc - back) &^ 1 | 1, kind: 0, host: 1 + r.Intn(4), hop: 255})
 		}
 		if r.Chance(1, 3) { // a solicitation arriving together with the stop
-			evs = append(evs, advEvent{t: tc - 2, kind: 0, host: 1 + r.Intn(4), hop: 255})
+			evs = append(evs, vfAdvEvent{t: tc - 2, kind: 0, host: 1 + r.Intn(4), hop: 255})
 		}
-		sortAdv(evs)
+		vfSortAdv(evs)
 		// latencies: write 0 is the initial RA (instantaneous), 1 the first periodic RA at 3 s
 		lat := []time.Duration{0}
 		for k := 0; k < 8; k++ {
@@ -219,31 +219,31 @@ func verifC08(t *testing.T, r *vfh.Rand, out *vfh.Out) {
 		if r.Chance(1, 3) {
 			atStop = 1 + r.Intn(3)
 		}
-		runShutdown(t, out, r.Chance(2, 3), evs, tc, lat, fail, atStop, r.Chance(1, 3))
+		vfRunShutdown(t, out, r.Chance(2, 3), evs, tc, lat, fail, atStop, r.Chance(1, 3))
 	}
 	// idle stop, terminate and reload
 	for _, term := range []bool{true, false} {
-		runShutdown(t, out, term, nil, 10*time.Second+1, []time.Duration{0, 0, 5 * time.Millisecond}, -1, 0, false)
-		runShutdown(t, out, term, nil, 10*time.Second+1, []time.Duration{0, 0, 5 * time.Millisecond}, -1, 0, true)
+		vfRunShutdown(t, out, term, nil, 10*time.Second+1, []time.Duration{0, 0, 5 * time.Millisecond}, -1, 0, false)
+		vfRunShutdown(t, out, term, nil, 10*time.Second+1, []time.Duration{0, 0, 5 * time.Millisecond}, -1, 0, true)
 		// the first periodic RA (due at 3 s) still in flight at the stop instant
-		runShutdown(t, out, term, nil, 3500*time.Millisecond+1, []time.Duration{0, 2 * time.Second, 10 * time.Millisecond}, -1, 0, false)
+		vfRunShutdown(t, out, term, nil, 3500*time.Millisecond+1, []time.Duration{0, 2 * time.Second, 10 * time.Millisecond}, -1, 0, false)
 		for k := 1; k <= 3; k++ {
-			runShutdown(t, out, term, nil, 3500*time.Millisecond+1, []time.Duration{0, 2 * time.Second, 10 * time.Millisecond}, -1, k, k == 2)
+			vfRunShutdown(t, out, term, nil, 3500*time.Millisecond+1, []time.Duration{0, 2 * time.Second, 10 * time.Millisecond}, -1, k, k == 2)
 		}
 		// …and failing while in flight
-		runShutdown(t, out, term, nil, 3500*time.Millisecond+1, []time.Duration{0, 2 * time.Second, 10 * time.Millisecond}, 1, 0, false)
+		vfRunShutdown(t, out, term, nil, 3500*time.Millisecond+1, []time.Duration{0, 2 * time.Second, 10 * time.Millisecond}, 1, 0, false)
 		// the stop at the very instant the first periodic RA is due (3 s): the timer and the
 		// cancellation race; whichever wins, the final RA must come last and nothing after Run
 		// has returned (repeated: the interleaving differs from run to run)
 		for k := vfh.N(120, 1500); k > 0; k-- {
 			for _, l := range []time.Duration{0, 3 * time.Millisecond, 400 * time.Millisecond} {
-				runShutdown(t, out, term, nil, 3*time.Second, []time.Duration{0, l, 7 * time.Millisecond}, -1, 0, false)
+				vfRunShutdown(t, out, term, nil, 3*time.Second, []time.Duration{0, l, 7 * time.Millisecond}, -1, 0, false)
 			}
 		}
 	}
 }
 
-func sortAdv(evs []advEvent) {
+func vfSortAdv(evs []vfAdvEvent) {
 	for i := 1; i < len(evs); i++ {
 		for j := i; j > 0 && evs[j].t < evs[j-1].t; j-- {
 			evs[j], evs[j-1] = evs[j-1], evs[j]
